@@ -363,8 +363,11 @@ def ctor_forms(ck, disagreements):
 
 def run(ck):
     ok, info = ck.lean_obligations("DS.Props.C10")
+    tie_ok, tie_info = ck.source_tie("DS.Props.SrcLattice")  # model = transliteration of lattice.py (rfl)
     quick = ck.tier == "quick"
     nhist = 80 if quick else 3000
+    if not tie_ok:
+        nhist *= 4  # broken source tie: widen the failing-input search
     nmax = 15 if quick else 40
     rng = ck.rng
     ck.coverage["rule"] = (
@@ -486,6 +489,7 @@ def run(ck):
                        "objects are compared through their public attributes; intermediate cells are generated well-conditioned"]
     if ok and not quick:
         leanchecker(ck, "DS.Props.C10")
+    ck.tie_verdict(tie_ok, tie_info, "lattice.py")
     if not ok and not ck.violations:
         fail_once(ck, "lean-build", "Lean obligations of C10 no longer check: %r" % info["failed_modules"],
                   {"kind": "proof-obligation", "theorem": info["failed_modules"], "errors": info["errors"]}, no_failing_input=True)
